@@ -151,6 +151,19 @@ theorem solution_selection [Inhabited α] (states obs : List String) (idx : List
   · apply h2
     simp [List.getD_eq_getElem?_getD, hj]
 
+/-- **Replicate observations.**  When the model state at observation times `i` and `i'` is the same — replicate
+measurements taken at one time: C02 `repeated_times_equal_rows` — the kernel receives the same prediction in rows
+`i` and `i'`, column by column: the second replicate is compared with the solution at its time like the first, not
+with the initial state. -/
+theorem replicate_observations_same_prediction [Inhabited α] (states obs : List String) (idx : List Nat)
+    (hidx : stateIndexOf states obs = .ok idx)
+    (n : Nat) (x : Nat → List α) (traj : List (List α))
+    (hlen : traj.length = n) (hrows : ∀ i, i < n → traj.getD i [] = x i)
+    (i i' j : Nat) (hi : i < n) (hi' : i' < n) (hj : j < obs.length) (hrep : x i = x i') :
+    entry (selectCols traj idx) i j = entry (selectCols traj idx) i' j := by
+  rw [(solution_selection states obs idx hidx n x traj hlen hrows i j hi hj).1,
+      (solution_selection states obs idx hidx n x traj hlen hrows i' j hi' hj).1, hrep]
+
 /-! ### θ is bound by name -/
 
 /-- **Values go to the names they were given for.**  With `target_param = tp` (any subset, any order, no
